@@ -246,7 +246,8 @@ func (p *ptrExec) pgraph() string {
 			cparts = append(cparts, fmt.Sprintf("%s=%s{%s}", c.name, r, strings.Join(d.out[before:], ";")))
 		}
 	}
-	return "last=" + p.last + " " + strings.Join(parts, " ") + " C:" + strings.Join(cparts, ",")
+	// X: the driver's cross-check of its two models (object-level vs functional) must say ok
+	return "last=" + p.last + " " + strings.Join(parts, " ") + " C:" + strings.Join(cparts, ",") + " X:ok"
 }
 
 // genPtrCase: up to 5 live trees derived from one another by Clone and MakeRoot+LoadMast, with
